@@ -12,7 +12,7 @@ DETECTORS = ['safe_math_pre_080', 'safe_math_post_080', 'string_errors', 'short_
 OPS = ['', '^', '~', '=', '>=', '>', '>= ', '<=']
 PLACEMENTS = ['only', 'experimental_before', 'abicoder_before', 'both_before', 'experimental_after', 'before_and_after',
               'after_contract', 'versioned_experimental_before', 'versioned_experimental_after']
-USING = ['contract', 'file', 'none', 'other_library', 'qualified']
+USING = ['contract', 'file', 'none', 'other_library', 'qualified', 'other_then_safemath', 'safemath_then_other', 'file_other_contract_safemath', 'two_others']
 
 
 def version_value(op, tag=''):
@@ -55,9 +55,18 @@ def make_file(b, op, placement, using, strlen, tag=''):
     cparts = []
     if using in ('contract', 'other_library', 'qualified'):
         cparts.append(b.using(lib, b.ty('Uint', 256)))
+    # several `using` directives: SafeMath is attached when ANY of them names it, wherever it stands among the others
+    if using == 'other_then_safemath':
+        cparts += [b.using('SafeERC20', b.var('IERC20')), b.using('SafeMath', b.ty('Uint', 256))]
+    elif using == 'safemath_then_other':
+        cparts += [b.using('SafeMath', b.ty('Uint', 256)), b.using('SafeCast', b.ty('Uint', 256)), b.using('Address', b.ty('Address'))]
+    elif using == 'file_other_contract_safemath':
+        cparts.append(b.using('SafeMath', b.ty('Uint', 256)))
+    elif using == 'two_others':
+        cparts += [b.using('SafeERC20', b.var('IERC20')), b.using('SafeCast', b.ty('Uint', 256))]
     cparts.append(fam.fn_def(b, body_statements(b, strlen)))
     c = fam.contract_with(b, cparts)
-    fparts = [b.supart(b.using(lib, b.ty('Uint', 256)))] if using == 'file' else []
+    fparts = [b.supart(b.using(lib, b.ty('Uint', 256)))] if using == 'file' else ([b.supart(b.using('Strings', b.ty('Uint', 256)))] if using == 'file_other_contract_safemath' else [])
     pre = {'only': [sp], 'experimental_before': [ex(), sp], 'abicoder_before': [ab(), sp], 'both_before': [ex(), ab(), sp],
            'experimental_after': [sp, ex()], 'before_and_after': [ab(), sp, ex()], 'after_contract': None,
            'versioned_experimental_before': [vx(), sp], 'versioned_experimental_after': [sp, vx()]}[placement]
